@@ -1,6 +1,35 @@
 """Per-property configuration of tools/check.py."""
 
 PROPS = {
+    "C02": {
+        "modules": ["BioSeq.Props.C02"],
+        "rule": "equality/hash op lines: 11 Seq/SeqSlice pairings x operands at independent bit offsets x {equal, one symbol changed (random/first/last), "
+                "proper prefix, proper suffix, longer, empty}, hash events of slices and owned copies (recording Hasher), == &str against own/other text, "
+                "HashMap<Seq,_>::get(&SeqSlice); k-mers of every fitting K (sampled in quick) x usize/u64/u128: hash vs slice hash, ==SeqSlice/&SeqSlice/Seq/&str/Kmer, "
+                "iterator k-mers hash like their windows; 7 codecs; non-trivial = carries a non-empty text or a k-mer; distinct = distinct line",
+    },
+    "C04": {
+        "modules": ["BioSeq.Props.C04"],
+        "rule": "packing op lines: usize/u8 conversion of slices (0, 1, fitting, one-too-long) at every offset, k-mer<->integer (all small ints, extremes, random) "
+                "with display/deref, raw image of owned values from every production route (parsed, collected, copied from offset slice, reversed, complemented, edited, "
+                "bit-op'd), from_raw with every count 0..capacity+2 and overflowing counts, from_raw of random word arrays; 7 codecs; distinct = distinct line",
+    },
+    "C06": {
+        "modules": ["BioSeq.Props.C06"],
+        "rule": "edit op lines: complete enumeration of edit histories of length <= 2 (quick) / 3 (thorough) over 12 ops on short DNA sequences; every edit with "
+                "in-bounds arguments on sequences around word boundaries for 7 codecs, argument slices at every reachable bit offset, all 15 RangeBounds forms of remove, "
+                "out-of-bounds arguments; random histories (depth <= 12, up to 200 symbols) from every production route incl. clones, with raw image; distinct = distinct line",
+    },
+    "C08": {
+        "modules": ["BioSeq.Props.C08"],
+        "rule": "k-mer construction/iteration op lines: kmers::<K> vs windows(K) for every fitting K (sampled in quick) x n in {0,K-1,K,K+1,K+4} x offsets, "
+                "try_from (slice, owned), from_str (valid / wrong length / bad byte), unsafe_from, Display, Deref, From<Kmer> for Seq, usize/u64/u128; distinct = distinct line",
+    },
+    "C10": {
+        "modules": ["BioSeq.Props.C10"],
+        "rule": "ordering op lines: all pairs of k-mers for K<=3 (sampled when large), random pairs for every fitting K x 3 storages, cmp/lt/le/partial_cmp consistency, "
+                "min/max/sort over a sequence's k-mers, Ord on owned sequences of equal and unequal lengths; the 5 Ord codecs; distinct = distinct line",
+    },
     "C07": {
         "modules": ["BioSeq.Props.C07"],
         "rule": "rev/comp/revcomp op lines: in-place, copying-on-owned and copying-on-slice forms, each applied once and twice, comp∘rev vs rev∘comp, "
